@@ -14,7 +14,7 @@ import vlib
 # ------------------------------------------------------------------ model process
 class Model:
     def __init__(self, exe):
-        self.p = subprocess.Popen([exe], stdin=subprocess.PIPE, stdout=subprocess.PIPE, bufsize=0)
+        self.p = subprocess.Popen([exe], stdin=subprocess.PIPE, stdout=subprocess.PIPE, bufsize=0, preexec_fn=vlib.big_stack)
         self.n = 0
     def ask(self, cmd):
         self.p.stdin.write((cmd + '\n').encode()); self.p.stdin.flush()
